@@ -23,7 +23,7 @@ ASSUMPTIONS = ['floor-based integer bin arithmetic is the specification: window 
                'a bin is "inside the contig" when start>=0 and end<=contig length (the documented --keepOverBounds rule)']
 MIN_NONTRIVIAL = {'quick': 2000, 'thorough': 50000}
 REQUIRED_MONITORS = ['call:bamToCountTable.coordinate_to_bins', 'call:utils.binning.coordinate_to_bins',
-                     'hook:coordinate_to_bins_during_table', 'table:cells_compared', 'history:two_files_one_call', 'history:same_args_second_call']
+                     'hook:coordinate_to_bins_during_table', 'table:cells_compared', 'history:two_files_one_call', 'history:same_args_second_call', 'option:splitFeatures_with_bin']
 EXHAUSTIVE = {'quick': True, 'thorough': True}
 
 
@@ -209,6 +209,11 @@ def run_table(case, acc, b2c):
             import contextlib
             with contextlib.redirect_stdout(io.StringIO()):
                 args = table_args(bams[0], b, s, keep, bintag, 'reference_name')
+                if case['i'] % 4 == 1:
+                    # --splitFeatures (one count per value of a multi-valued feature) next to -bin: the contig feature has one value per read,
+                    # so the binned table is the same table
+                    args.splitFeatures = True
+                    acc.count('option:splitFeatures_with_bin')
                 if history == 'two_files_one_call':
                     args.alignmentfiles = list(bams)
                     df = b2c.create_count_table(args, return_df=True)
